@@ -1,21 +1,14 @@
 """C12 -- Stack.tla: (a) the LIFO laws on the specification alone with Limit = 4, (b) with the real
 limit 1024 every (state, operation) edge within MaxHist operations of a pre-filled stack replayed on
 revm_interpreter::Stack."""
-import os
-
 import vf
 
-READY = False
-# Where the zeros of a short last word of push_slice go.  "right" is the property's sentence ("the last
-# word right-padded with zeros") and what bin/check judges.  "left" (the bytes right-aligned, i.e. the
-# number they spell -- the yellow paper's PUSH1..PUSH31) exists for the lead's decision and for
-# mutation runs (VERIF_C12_PAD=left); see Stack.tla, ChunkBytes.
-PAD = os.environ.get("VERIF_C12_PAD", "right")
+READY = True
 SERVES = {
     "C12": dict(
         technique="TLA+ spec Stack.tla model-checked by TLC; every (state, operation) edge of the model with Limit = 1024 replayed on revm_interpreter::Stack and the projected stack and result compared (spec->impl conformance)",
-        level="TLC checks the property's clauses on the specification (height bound, an error leaves the stack unchanged, which error is reported as a function of the words needed and the growth, the algebraic LIFO laws relating push/pop/peek/set/dup/swap/exchange/multi-pop/push_slice, and byte by byte that push_slice's words are the big-endian 32-byte chunks with a zero-padded last word) exhaustively for Limit = 4 and again on every state of the Limit = 1024 model. For Limit = 1024 it enumerates every stack reachable by a pre-fill to a height in {0,1,15,16,17,..,1022,1023,1024} followed by up to two (thorough: in a reduced alphabet three) further operations out of push, push_b256, pop, peek, set, dup(n), swap(n), exchange(n,m), push_slice(len in 0..32*1024+1), the unchecked pop/top variants (only where their precondition holds), Display and deserialisation, and prints every edge with the expected result, returned words, height, top 20 words and a position-weighted checksum of the words below; the harness performs the same calls on the real Stack (whose spare capacity was dirtied) and compares. Any change to stack.rs that alters a result class, a returned word or any word of data() on such a history is detected; words carry four different limbs and slice chunks are pairwise different so a wrong limb, wrong chunk or missing zero-fill shows.",
-        note="Trusted: Stack.tla as the statement of the property; the adapter harness/src/bin/stack.rs (embedding of model words as U256, the shared slice byte function). The unchecked *_unsafe functions are exercised only under their documented precondition, dup/swap with n >= 1 and exchange with m >= 1 (the documented panics are outside the contract), and dup(n > 1024) on a full stack (both errors apply) is not judged. Histories are short (pre-fill plus at most 3 operations); words below the top 20 are compared through a checksum.",
+        level="TLC checks the property's clauses on the specification itself: the height bound, that an error leaves the stack unchanged, which result is reported as a function of the words an operation needs and the growth it causes, the algebraic LIFO laws relating push/pop/peek/set/dup/swap/exchange/multi-pop/push_slice, and (as an ASSUME evaluated for every slice length used) byte by byte that push_slice's words are the 32-byte big-endian chunks of the slice with a short last chunk zero-extended on the high-order side (the yellow paper's PUSHn). This is done exhaustively for Limit = 4 with histories up to 4 (thorough 5) operations and again on the Limit = 1024 model. For Limit = 1024 TLC enumerates every stack reachable by a pre-fill (or a deserialisation) to a height in {0,1,15,16,17,1022,1023,1024} (thorough: 15 heights) followed by up to two further operations (thorough additionally three in a reduced alphabet) out of push, push_b256, pop, peek, set, dup(n) and swap(n) for n in 1..17, 255..257, 1024, 1025, exchange(n,m), push_slice(len) for len in {0,1,31,32,33,64,65,32*1023,32*1024,32*1024+1,..}, the unchecked pop/top variants (only where their precondition holds), Display and deserialisation, and prints every edge with the expected result, returned words, height, top 20 words and a position-weighted checksum of the words below; the harness performs the same calls on the real Stack (whose spare capacity was dirtied first) and compares. Any change to stack.rs that alters a result class, a returned word or a word of data() on such a history is detected; embedded words have four different limbs and slice chunks are pairwise different, so a wrong limb, a wrong chunk, a wrong padding side or a missing zero-fill shows.",
+        note="Trusted: Stack.tla as the statement of the property; the adapter harness/src/bin/stack.rs (embedding of model words as U256, the shared slice byte function). 'Last word right-padded with zeros' is read as the lead decided: the short last word is the big-endian number of the remaining bytes (zeros in the high-order bytes). The unchecked *_unsafe functions are exercised only under their documented precondition, dup/swap only with n >= 1 and exchange with m >= 1 (the documented panics are outside the contract), and dup(n > 1024) on a full stack (both errors apply) is not judged. Histories are short (pre-fill plus at most 3 operations); words below the top 20 are compared through a checksum mod 65521 (exact for one wrong word or one transposition). Not covered: data_mut/into_data, Serialize, Deserialize from size-hinting formats.",
         ref="DESIGN.md section 3, C12"),
 }
 
@@ -29,7 +22,7 @@ L = 1024
 
 
 def consts(**kw):
-    c = dict(Limit=L, Window=WINDOW, PushVals=vf.tla_set([2001, 2002]), PadRight="TRUE" if PAD == "right" else "FALSE")
+    c = dict(Limit=L, Window=WINDOW, PushVals=vf.tla_set([2001, 2002]))
     c.update({k: (vf.tla_set(v) if isinstance(v, (list, tuple)) else v) for k, v in kw.items()})
     return c
 
@@ -41,9 +34,7 @@ def run(ctx, pid):
     binary = vf.cargo_build("stack")
 
     # (a) the laws, small limit, deeper histories, specification only (the real limit is 1024).
-    if PAD not in ("right", "left"):
-        raise vf.ToolError("VERIF_C12_PAD must be right or left")
-    small = dict(Limit=4, Window=3, PadRight="TRUE" if PAD == "right" else "FALSE", PushVals=vf.tla_set([2001, 2002]), Heights=vf.tla_set([0, 1, 3, 4]),
+    small = dict(Limit=4, Window=3, PushVals=vf.tla_set([2001, 2002]), Heights=vf.tla_set([0, 1, 3, 4]),
                  Ns=vf.tla_set([1, 2, 3, 4, 5]), Is=vf.tla_set([0, 1, 3, 4]), ExN=vf.tla_set([0, 1, 2]),
                  ExM=vf.tla_set([1, 2, 3]), SliceLens=vf.tla_set([0, 1, 31, 32, 33, 64, 65, 96, 127, 128, 129]),
                  MaxHist=4 if ctx.quick else 5)
@@ -79,8 +70,12 @@ def run(ctx, pid):
         run_ = vf.tlc(ctx, "Stack", vf.cfg(c, next="Steps", constraint="HistBound", invariants=inv, properties=PROPS), name=name, workers=6, xss="1g",
                       timeout=1500)
         slens = c["SliceLens"].strip("{}").replace(" ", "")
-        vf.replay_edges(ctx, res, run_, "stack", ["window=%d" % WINDOW, "lens=" + slens, "pad=" + PAD], name=name, binary=binary,
-                        expect_ops=OPS)
+        summ = vf.replay_edges(ctx, res, run_, "stack", ["window=%d" % WINDOW, "lens=" + slens], name=name,
+                               binary=binary, expect_ops=OPS)
+        # every history is itself a sequence of edges of the dump, so an edge can only be tainted below a
+        # root mismatch; tainted edges without one mean the replay itself broke (nothing was judged).
+        if summ.get("tainted") and not summ.get("root"):
+            raise vf.ToolError("%s: %d tainted edges but no root mismatch (history replay panics?)" % (name, summ["tainted"]))
         run_.lines.clear()
     res.exhaustive = True
     res.assumptions += ["histories are a pre-fill (or deserialisation) to a chosen height followed by at most MaxHist-1 operations",
